@@ -3,78 +3,11 @@ Pinned SQL: the normalised text of every statement the hand-written chain model 
 was transcribed from, compared with BHS/Gen/SqlText.lean, which is REGENERATED from /repo/database/sql on every run.
 An edited statement re-opens the obligation of every property whose model reads through it; the check then
 searches for a failing input (correspondence + oracle) and reports the violation with it, or `no-failing-input-found`.
+One module per group of statements (BHS/Props/SqlShape/*.lean): a property depends only on the statements ITS model reads
+through, so an edited statement re-opens only the obligations of the properties it concerns.
 -/
-import BHS.Gen.SqlText
-
-namespace BHS.Props.SqlShape
-open BHS.Gen
-
-/-- the statements `Chains.Add` reads and writes through (model: BHS/Model/Chain.lean) — C01, C03, C05, C11, C15 -/
-theorem add_statements :
-    sqlText_sqlHeader =
-      "select hash, height, version, merkleroot, nonce, bits, chainwork, previous_block, timestamp, header_state, cumulated_work from headers where hash = ?" ∧
-    sqlText_sqlHeaderByHeight =
-      "select hash, height, version, merkleroot, nonce, bits, chainwork, previous_block, timestamp, header_state, cumulated_work from headers where height = ? and header_state = ?" ∧
-    sqlText_sqlSelectTip =
-      "select hash, height, version, merkleroot, nonce, bits, chainwork, previous_block, timestamp, header_state, cumulated_work from headers where height = (select max(height) from headers where header_state = 'LONGEST_CHAIN')" ∧
-    sqlText_sqlStaleHeadersFrom =
-      "with recursive recur(hash, height, version, merkleroot, nonce, bits, chainwork, previous_block, timestamp, header_state, cumulated_work) as ( select hash, height, version, merkleroot, nonce, bits, chainwork, previous_block, timestamp, header_state, cumulated_work from headers where hash = ? union all select h.hash, h.height, h.version, h.merkleroot, h.nonce, h.bits, h.chainwork, h.previous_block, h.timestamp, h.header_state, h.cumulated_work from headers h join recur r on h.hash = r.previous_block ) select hash, height, version, merkleroot, nonce, bits, chainwork, previous_block, timestamp, header_state, cumulated_work from recur where header_state = 'STALE'" ∧
-    sqlText_sqlLongestChainHeadersFromHeight =
-      "select hash, height, version, merkleroot, nonce, bits, chainwork, previous_block, timestamp, header_state, cumulated_work from headers where height >= ? and header_state = 'LONGEST_CHAIN'" ∧
-    sqlText_sqlUpdateState =
-      "update headers set header_state = ? where hash in (?)" ∧
-    sqlText_sqlInsertHeader =
-      "insert into headers(hash, height, version, merkleroot, nonce, bits, header_state, chainwork, previous_block, timestamp , cumulated_work) values(:hash, :height, :version, :merkleroot, :nonce, :bits, :header_state, :chainwork, :previous_block, :timestamp, :cumulated_work) on conflict do nothing" := by
-  refine ⟨rfl, rfl, rfl, rfl, rfl, rfl, rfl⟩
-
-/-- merkle-root verification (model: verifyHash / verify) — C02 -/
-theorem verify_statements :
-    sqlText_sqlVerifyHash =
-      "select hash from headers where merkleroot = $1 and height = $2 and header_state = 'LONGEST_CHAIN'" ∧
-    sqlText_sqlTipOfChainHeight =
-      "select max(height) from headers where header_state = 'LONGEST_CHAIN'" := by
-  refine ⟨rfl, rfl⟩
-
-/-- merkle-root listing (model: lastEvalHeight / rootsAfter / page) — C08 -/
-theorem page_statements :
-    sqlText_sqlMerkleRootsFromHeight =
-      "select merkleroot, height from headers where height > ? and header_state = 'LONGEST_CHAIN' order by height asc limit ?" ∧
-    sqlText_sqlGetSingleMerkleroot =
-      "select merkleroot, height, header_state from headers where merkleroot = ?" ∧
-    sqlText_sqlSelectTip =
-      "select hash, height, version, merkleroot, nonce, bits, chainwork, previous_block, timestamp, header_state, cumulated_work from headers where height = (select max(height) from headers where header_state = 'LONGEST_CHAIN')" := by
-  refine ⟨rfl, rfl, rfl⟩
-
-/-- locator and getheaders (model: locator / startHeight / stopHeight / rangeLc) — C13 -/
-theorem getheaders_statements :
-    sqlText_sqlGetHeadersHeight =
-      "select coalesce(max(height), 0) as startheight from headers where header_state = 'LONGEST_CHAIN' and hash in (?)" ∧
-    sqlText_sqlHeaderHeightFromHashAndState =
-      "select height from headers where hash = ? and header_state = ?" ∧
-    sqlText_sqlHeaderByHeightRangeLongestChain =
-      "select hash, height, version, merkleroot, nonce, bits, chainwork, previous_block, timestamp, header_state, cumulated_work from headers where height between ? and ? and header_state = 'LONGEST_CHAIN'" ∧
-    sqlText_sqlHeaderByHeight =
-      "select hash, height, version, merkleroot, nonce, bits, chainwork, previous_block, timestamp, header_state, cumulated_work from headers where height = ? and header_state = ?" ∧
-    sqlText_sqlSelectTip =
-      "select hash, height, version, merkleroot, nonce, bits, chainwork, previous_block, timestamp, header_state, cumulated_work from headers where height = (select max(height) from headers where header_state = 'LONGEST_CHAIN')" := by
-  refine ⟨rfl, rfl, rfl, rfl, rfl⟩
-
-/-- chain queries (model: byHash / byHeightRange / allTips / ancestorOnHeight / chainBetween / prev) — C04 -/
-theorem query_statements :
-    sqlText_sqlHeader =
-      "select hash, height, version, merkleroot, nonce, bits, chainwork, previous_block, timestamp, header_state, cumulated_work from headers where hash = ?" ∧
-    sqlText_sqlHeaderByHeightRange =
-      "select hash, height, version, merkleroot, nonce, bits, chainwork, previous_block, timestamp, header_state, cumulated_work from headers where height between ? and ?" ∧
-    sqlText_sqlSelectTips =
-      "with maintip as ( select hash, height, version, merkleroot, nonce, bits, chainwork, previous_block, timestamp, header_state, cumulated_work from headers where header_state = 'LONGEST_CHAIN' order by height desc limit 1 ) select hash, height, version, merkleroot, nonce, bits, chainwork, previous_block, timestamp, header_state, cumulated_work from maintip union select hash, height, version, merkleroot, nonce, bits, chainwork, previous_block, timestamp, header_state, cumulated_work from headers where header_state != 'LONGEST_CHAIN' and hash not in (select previous_block from headers where header_state != 'LONGEST_CHAIN')" ∧
-    sqlText_sqlSelectAncestorOnHeight =
-      "with recursive ancestors(hash, height, version, merkleroot, nonce, bits, chainwork, previous_block, timestamp, cumulated_work, level) as ( select hash, height, version, merkleroot, nonce, bits, chainwork, previous_block, timestamp, cumulated_work, 0 level from headers where hash = ? union all select h.hash, h.height, h.version, h.merkleroot, h.nonce, h.bits, h.chainwork, h.previous_block, h.timestamp, h.cumulated_work, a.level + 1 level from headers h join ancestors a on h.hash = a.previous_block and h.height >= ? ) select hash, height, version, merkleroot, nonce, bits, chainwork, previous_block, timestamp, cumulated_work from ancestors where height = ?" ∧
-    sqlText_sqlChainBetweenTwoHashes =
-      "with recursive ancestors(hash, height, version, merkleroot, nonce, bits, chainwork, previous_block, timestamp, cumulated_work, level) as ( select hash, height, version, merkleroot, nonce, bits, chainwork, previous_block, timestamp, cumulated_work, 0 level from headers where hash = ? union all select h.hash, h.height, h.version, h.merkleroot, h.nonce, h.bits, h.chainwork, h.previous_block, h.timestamp, h.cumulated_work, a.level + 1 level from headers h join ancestors a on h.hash = a.previous_block and h.hash != ? ) select hash, height, version, merkleroot, nonce, bits, chainwork, previous_block, timestamp, cumulated_work from ancestors union all select hash, height, version, merkleroot, nonce, bits, chainwork, previous_block, timestamp, cumulated_work from headers where hash = ?" ∧
-    sqlText_sqlSelectPreviousBlock =
-      "select prev.hash, prev.height, prev.version, prev.merkleroot, prev.nonce, prev.bits, prev.chainwork, prev.previous_block, prev.timestamp, prev.header_state, prev.cumulated_work from headers h, headers prev where h.hash = ? and h.previous_block = prev.hash" ∧
-    sqlText_sqlSelectTip =
-      "select hash, height, version, merkleroot, nonce, bits, chainwork, previous_block, timestamp, header_state, cumulated_work from headers where height = (select max(height) from headers where header_state = 'LONGEST_CHAIN')" := by
-  refine ⟨rfl, rfl, rfl, rfl, rfl, rfl, rfl⟩
-
-end BHS.Props.SqlShape
+import BHS.Props.SqlShape.Add
+import BHS.Props.SqlShape.Verify
+import BHS.Props.SqlShape.Page
+import BHS.Props.SqlShape.GetHeaders
+import BHS.Props.SqlShape.Query
